@@ -112,6 +112,10 @@ func (db *DB) GetBucket(i uint) (*Bucket, error) {
 	if i >= uint(db.Header.NumBuckets) {
 		return nil, fmt.Errorf("out of bounds bucket index: %d >= %d", i, db.Header.NumBuckets)
 	}
+	if db.Header.ValueSize == 0 || db.Header.ValueSize > 255-HashSize {
+		// the entry stride (hash + value) must fit a byte; anything else is a corrupt header
+		return nil, fmt.Errorf("unsupported value size %d", db.Header.ValueSize)
+	}
 
 	// Fill bucket handle.
 	bucket := &Bucket{
